@@ -92,21 +92,6 @@ struct Fail {
     if (!(cond)) VF_FAIL(symptom, msg);               \
   } while (0)
 
-// ---------------------------------------------------------------- per-case record
-// Everything a case reports about itself; committed to the run statistics by
-// the engine after the case finished (also across a fork boundary).
-struct CaseRec {
-  std::vector<std::string> classes;  // class labels this case belongs to
-  bool nontrivial = false;
-  uint64_t shape_hash = 0;           // distinctness key (stated per property)
-  std::string desc;                  // human-readable rendering
-  uint64_t evals = 1;                // how many oracle evaluations this case made
-  std::vector<std::string> known;    // known-finding keys this case ran into
-  void tag(const std::string &c) { classes.push_back(c); }
-  void clear() { *this = CaseRec(); }
-};
-extern CaseRec g_case;
-
 inline uint64_t fnv(const void *p, size_t n, uint64_t h = 1469598103934665603ull) {
   const unsigned char *c = (const unsigned char *)p;
   for (size_t i = 0; i < n; i++) {
@@ -117,6 +102,24 @@ inline uint64_t fnv(const void *p, size_t n, uint64_t h = 1469598103934665603ull
 }
 inline uint64_t fnv(const std::string &s, uint64_t h = 1469598103934665603ull) { return fnv(s.data(), s.size(), h); }
 inline uint64_t fnv_u64(uint64_t v, uint64_t h) { return fnv(&v, sizeof v, h); }
+
+// ---------------------------------------------------------------- per-case record
+// Everything a case reports about itself; committed to the run statistics by
+// the engine after the case finished (also across a fork boundary).
+struct CaseRec {
+  std::vector<std::string> classes;  // class labels this case belongs to
+  bool nontrivial = false;
+  uint64_t shape_hash = 0;           // distinctness key (stated per property)
+  std::string desc;                  // human-readable rendering
+  uint64_t evals = 1;                // how many oracle evaluations this case made
+  std::vector<std::string> known;    // known-finding keys this case ran into
+  uint64_t digest = 0;               // hash of everything the case observed (heap-fill differential, C20)
+  void mix(uint64_t v) { digest = fnv_u64(v, digest ? digest : 1469598103934665603ull); }
+  void mix(const std::string &s) { digest = fnv(s, digest ? digest : 1469598103934665603ull); }
+  void tag(const std::string &c) { classes.push_back(c); }
+  void clear() { *this = CaseRec(); }
+};
+extern CaseRec g_case;
 
 // printable rendering of arbitrary bytes (for descriptions / samples)
 std::string esc(const std::string &s);
